@@ -187,6 +187,16 @@ def monitors(ctx, pid, s1, s2):
                     fw.append(e["t"])
         rep = {"scenario": r["scenario"], "variant": r["variant"], "dispatcher_started_at": r["start"], "purge_period_s": r["period"], "queue_capacity": r["cap"],
                "requests": [(e["t"], e.get("src"), e["out"]) for e in r["events"] if e["k"] == "req"], "purge_ticks": [e["t"] for e in r["events"] if e["k"] == "tick"]}
+        lastf = None
+        for e in r["events"]:
+            if e["k"] != "req":
+                continue
+            if e["out"] == 0:
+                lastf = e["t"]
+            elif e["out"] == 1 and (lastf is None or e["t"] - lastf > WINDOW + PERIOD):
+                flag("dup-without-forward", "loop(b): the request at %d s was skipped as a duplicate although the watcher received no request for that transaction in the 18 minutes before (%s)"
+                     % (e["t"], "last forward at %d s" % lastf if lastf is not None else "none at all: an earlier request was dropped on a full queue"),
+                     "real dispatcher fed with the real cleanup's requests, %s / %s" % (r["scenario"], r["variant"]), rep)
         for a, b in zip(fw, fw[1:]):
             gaps.append(b - a)
             if b - a <= WINDOW:
